@@ -207,6 +207,12 @@ def run_property(pid, tier):
             path, found = replay.make_replay(pid, fo, tup, seed)
             if fo.get('needs_witness') and not found:
                 # degraded unit (proof hints lost after a rewrite): undecided without a concrete failing input
+                if fo.get('kind') == 'rejected':
+                    for rr in results:
+                        if rr.name == fo['unit'] and rr not in inconclusive:
+                            rr.status = 'inconclusive'
+                            inconclusive.append(rr)
+                    continue
                 print('INCONCLUSIVE unit=%s reason=function %s was rewritten (proof hints lost), obligation undecided and no failing input found: %s'
                       % (fo['unit'], fo['fn'], fo['name'][:200]))
                 if rc == 0:
@@ -236,9 +242,15 @@ def run_property(pid, tier):
 
 def write_evidence(evpath, pid, tier, seed, level, results, violations, known_hits, inconclusive, t0, claim, note=None):
     obs = []
+    # obligations of a function with a listed known finding are not claimed: they are reported under known_findings_hit
+    known_fns = set((fo['unit'], fo['fn']) for (_k, fo) in known_hits)
+    excluded_known = 0
     for r in results:
         for o in r.obligations:
             if relevant(o, pid):
+                if (o['unit'], o['fn']) in known_fns:
+                    excluded_known += 1
+                    continue
                 obs.append(o)
     bounded_units = [r for r in results if getattr(r, 'bounded', False)]
     failed_names = set(fo['name'] for r in results for fo in r.failed)
@@ -296,7 +308,7 @@ def write_evidence(evpath, pid, tier, seed, level, results, violations, known_hi
         'checker_cmd': 'verus <generated unit file> --output-json --time-expanded --error-format=json --multiple-errors 6 --rlimit %s (one file per unit; see backends)' % R.VERUS_RLIMIT,
         'trusted_base': registry.TRUSTED_BASE,
         'samples': samples,
-        'rule': 'obligation = one ensures/invariant/decreases clause, one index / arithmetic / shift / division site, one assertion, one call-site precondition or one library lemma of a function under contract; enumerated lexically from the generated Verus files of this run; discharged = Verus verified the enclosing function',
+        'rule': 'obligation = one ensures/invariant/decreases clause, one index / arithmetic / shift / division site, one assertion, one call-site precondition or one library lemma of a function under contract; enumerated lexically from the generated Verus files of this run; discharged = Verus verified the enclosing function; the obligations of a function with a listed known finding (known_findings.json) are not counted here but under known_finding_obligations_excluded',
         'units': [{'unit': r.name, 'backend': getattr(r, 'backend', 'verus'), 'status': r.status, 'reason': r.reason,
                    'verified_fns': r.verified_fns, 'smt_ms': r.smt_ms, 'wall_s': r.wall_s,
                    'cached': bool(r.verus and r.verus.get('cached')),
@@ -310,6 +322,7 @@ def write_evidence(evpath, pid, tier, seed, level, results, violations, known_hi
         'vacuity': probes,
         'failed_obligations': [fo['name'] for fo in violations],
         'known_findings_hit': [k['what_fails'] for k, _ in known_hits],
+        'known_finding_obligations_excluded': excluded_known,
         'inconclusive_units': [{'unit': r.name, 'reason': r.reason} for r in inconclusive],
         'explanation': claim.get('text', ''),
         'evaluations': max(1, n_ob),
